@@ -350,7 +350,9 @@ func (r *Runner) Step(s Step) *Failure {
 		return r.sync(p, s.Op == "pushonly")
 	case s.Op == "faultsync" || s.Op == "faultpushonly":
 		// A = index of the storage event that fails; C == 1: the response is lost
-		// instead; B == 1: no immediate retry (the next sync of the program retries).
+		// instead; B == 1: no immediate retry (the next sync of the program retries);
+		// B == 2: the immediate retry is a push-only sync; B == 3: one more
+		// edit, then a push-only sync.
 		if !p.Attached {
 			r.log("c%d: %s (skipped: detached)", p.Idx, s.Op)
 			return nil
@@ -360,7 +362,7 @@ func (r *Runner) Step(s Step) *Failure {
 			ev = -1
 		}
 		r.log("c%d: %s with a fault at storage event %d", p.Idx, s.Op[5:], ev)
-		return r.faultySync(p, s.Op == "faultpushonly", ev, false, s.B == 1)
+		return r.faultySync(p, s.Op == "faultpushonly", ev, false, s.B)
 	case s.Op == "round":
 		// every attached client syncs once, in order, starting with Who
 		r.log("-- round: every client syncs once")
@@ -467,6 +469,52 @@ func (r *Runner) Step(s Step) *Failure {
 		p.Attached = true
 		r.Ev["reattach"]++
 		r.S.WaitIdle()
+		return nil
+	case s.Op == "compact":
+		// Forced compaction at a quiescent point (what housekeeping or the
+		// admin API do): everybody syncs, the server compacts, and every
+		// attached client - now of the old generation - detaches and attaches
+		// again with a new document instance, which must show the content
+		// from before the compaction.
+		if r.Ev["compact"] >= 2 {
+			return r.Step(Step{Who: s.Who, Op: "sync"})
+		}
+		if f := r.Quiesce(false); f != nil {
+			return f
+		}
+		if f := r.CheckConverged(); f != nil {
+			return f
+		}
+		before := r.Content()
+		di, err := r.DocInfo()
+		if err != nil {
+			return failf("HARNESS", "docinfo: %v", err)
+		}
+		ok, err := documents.CompactDocument(r.ctx, r.S.BE, r.Proj, di, true)
+		r.S.WaitIdle()
+		r.log("server: forced compaction at head %d -> compacted=%v err=%v", di.ServerSeq, ok, err)
+		if err != nil || !ok {
+			return failf("COMPACTFAIL", "CompactDocument(force) at head %d: compacted=%v err=%v (content: %s)", di.ServerSeq, ok, err, before)
+		}
+		r.Ev["compact"]++
+		for _, q := range r.Peers {
+			if !q.Attached {
+				continue
+			}
+			if err := q.C.Detach(r.ctx, q.D); err != nil {
+				return failf("STALE-DETACH-FAILED", "c%d after compaction: %v", q.Idx, err)
+			}
+			q.D = r.newDoc()
+			q.SnapshotFed, q.Purged = false, false
+			if err := q.C.Attach(r.ctx, q.D, r.attachOpts(q.Idx+1)...); err != nil {
+				return failf("ATTACHFAIL", "c%d (re-attach after compaction): %v", q.Idx, err)
+			}
+			r.S.WaitIdle()
+			if got := q.D.Marshal(); got != before {
+				return failf("COMPACTION-CHANGED-CONTENT", "c%d re-attached after compaction:\n got %s\nwant %s", q.Idx, got, before)
+			}
+		}
+		r.log("-- all clients re-attached to the compacted document")
 		return nil
 	case s.Op == "cachepurge":
 		r.log("server: snapshot cache purge")
